@@ -1057,3 +1057,8 @@ func TestVerifC04Spk(t *testing.T) {
 	vw.Run(t, vw.Options{Property: "C04", Engine: "speaker", Rule: spkRule + "; at every quiescence the addresses this speaker answers for must equal those of freshly started speakers evaluating the same final view (the single-announcer decision must survive node-condition, label, membership and configuration histories, not only hold as a pure function of a view); non-trivial = a withdraw-causing event happened", Assumptions: spkAssumptions},
 		genSpkCase, func(c spkCase, tr *vw.Trace) *vw.Violation { return runSpk(c, tr, false, true) })
 }
+
+func TestVerifC13Spk(t *testing.T) {
+	vw.Run(t, vw.Options{Property: "C13", Engine: "speaker", Rule: spkRule + "; at every quiescence the addresses (and interface scopes) the real announcer of this speaker holds - which is what its ARP/NDP responders answer for - must equal those of freshly started speakers: the node answers for an address only while a service it currently announces holds it; non-trivial = a withdraw-causing event happened", Assumptions: spkAssumptions},
+		genSpkCase, func(c spkCase, tr *vw.Trace) *vw.Violation { return runSpk(c, tr, false, true) })
+}
